@@ -17,7 +17,7 @@ SUFFIX = ["AX", "NET", "QZ", "MODE", "LVL", "IO"]
 # value classes for assignments (DESIGN.md 2.7); first entries are the "sane" ones
 VALS = {
     BOOL: ["y", "n"],
-    INT: ["0", "1", "7", "12", "49", "50", "51", "123", "-1", "-3", "007", "+5", "12a", "99999999999999999999", ""],
+    INT: ["0", "1", "7", "12", "49", "50", "51", "123", "-1", "-3", "007", "+5", "12a", "99999999999999999999", "", "--5", "\u00b2"],
     HEX: ["0x0", "0x1", "0x1F", "0x3f", "0x40", "0x41", "1f", "0X2", "0x", "zz", "-0x1", "0x10"],
     FLOAT: ["0.5", "1.5", "5", "1e1", "1e3", "15.5", "25.5", "-0.0", "nan", "inf", "1,5", "3.25"],
     # incl. characters str.splitlines() treats as line boundaries although a text file does not (\x0b \x0c \x1c-\x1e \x85 \u2028 \u2029)
